@@ -79,6 +79,12 @@ def parseOp : List String → Option Op
   | ["set", i, v] => do some (.setAt (← i.toNat?) (← v.toNat?))
   | _ => none
 
+def parseAOp : List String → Option AOp
+  | ["pushself", j] => do some (.pushBackSelf (← j.toNat?))
+  | ["insnself", i, n, j] => do some (.insertNSelf (← i.toNat?) (← n.toNat?) (← j.toNat?))
+  | ["empself", i, j] => do some (.emplaceSelf (← i.toNat?) (← j.toNat?))
+  | _ => none
+
 def doW (c : Cfg) (s : St) (o : World.WOp) : St × String :=
   if o.pre s.w then
     let w := s.w.apply c o
@@ -109,8 +115,14 @@ def stepVec (c : Cfg) (s : St) (ws : List String) : Option (St × String) :=
     some ({ s with w := w }, showW w)
   | r :: rest => do
     let r ← parseReg r
-    let o ← parseOp rest
-    some (doW c s (.on r o))
+    match parseOp rest with
+    | some o => some (doW c s (.on r o))
+    | none =>
+      let o ← parseAOp rest
+      if o.pre (s.w.get r).size then
+        let w := s.w.set r ((s.w.get r).applyAlias c o)
+        some ({ s with w := w }, showW w)
+      else some (s, "bad-op")
   | _ => none
 
 def stepMgr (c : Cfg) (s : St) (ws : List String) : Option (St × String) :=
